@@ -158,11 +158,11 @@ def value_tags(v):
     return tags
 
 
-def gen_pairs(rnd, fmt, n_schemas, per_schema=8, depth=3, max_rules=4):
+def gen_pairs(rnd, fmt, n_schemas, per_schema=8, depth=3, max_rules=4, profile="core"):
     """random schema x (valid-by-construction attempts, near-miss mutants, unrelated values)"""
     cases = []
     for _ in range(n_schemas):
-        g = G.Gen(rnd, fmt=fmt, max_rules=max_rules, depth=rnd.choice([1, 2, depth]))
+        g = G.Gen(rnd, fmt=fmt, max_rules=max_rules, depth=rnd.choice([1, 2, depth]), profile=profile)
         rules = g.schema()
         vals = []
         for _ in range(per_schema):
